@@ -35,7 +35,7 @@ def _none0(x):
 def ext_cooler(case, ctx):
     import cooler
     import h5py
-    uri = gen.place(ctx.path(), case["table"], case["px"], case["mode"], at=case.get("at"))
+    uri = gen.place(ctx.path(), case["table"], case["px"], case["mode"], at=case.get("at"), prior=case.get("prior", False))
     fp, grp = gen.split_uri(uri)
     out = []
     with h5py.File(fp, "r") as f:
